@@ -79,6 +79,9 @@ macro_rules! op {
     ((mutate_mut (pm $id:literal $d:literal))) => { Mutate::new(leak(ProbeMut { id: $id, d: $d })) };
     ((recombine (pr $id:literal $d:literal))) => { Recombine::new(ProbeRec { id: $id, d: $d }) };
     ((recombine_ref (pr $id:literal $d:literal))) => { Recombine::new(&*leak(ProbeRec { id: $id, d: $d })) };
+    // a type-erased operator as a component of a pipeline (same error type: the identity conversion)
+    ((erased (p $id:literal $d:literal))) => { (Box::new(Probe { id: $id, d: $d }) as Box<dyn ec_core::operator::DynOperator<V, ProbeErr, Output = V>>) };
+    ((erased_arc (p $id:literal $d:literal))) => { (std::sync::Arc::new(Probe { id: $id, d: $d }) as std::sync::Arc<dyn ec_core::operator::DynOperator<V, ProbeErr, Output = V> + Send + Sync>) };
     ((extract)) => { GenomeExtractor };
     ((scorer $gm:tt $c:literal)) => { GenomeScorer::new(op!($gm), FnScorer(score_c::<$c>)) };
     ((wrapscorer $gm:tt $c:literal)) => { op!($gm).wrap::<GenomeScorer<_, _>>(FnScorer(score_c::<$c>)) };
@@ -146,6 +149,13 @@ catalogue! {
     [V] (then (and (p 1 1) (p 2 1)) (recombine (pr 3 1)));
     [V] (then (rep 2 (p 1 1)) (recombine_ref (pr 2 2)));
     [V] (then (and (mutate (pm 1 1)) (mutate_mut (pm 2 0))) (then (map (mutate_ref (pm 3 1))) (recombine (pr 4 1))));
+    // --- type-erased operators as components: they draw from the shared stream like any other part -------------
+    [V] (then (erased (p 1 1)) (p 2 1));
+    [V] (then (p 1 1) (erased (p 2 2)));
+    [V] (then (erased (p 1 2)) (erased_arc (p 2 1)));
+    [V] (and (erased (p 1 1)) (erased_arc (p 2 1)));
+    [V] (rep 3 (erased_arc (p 1 1)));
+    [V] (then (rep 2 (erased (p 1 1))) (map (erased_arc (p 2 1))));
     // --- pair / array / vector inputs ---------------------------------------------------------
     [(V, V)] (map (p 1 1));
     [(V, V)] (mapm (p 9 3) (p 1 1));
